@@ -71,21 +71,21 @@ Record sim_astate := mkSA { sa_hooks : list hook; sa_applied : list (N * N) }.
 
 Definition sim_aobs := (list (N * N) * list (N * N * list (N * N)))%type.  (* acks, (read, snapshot) *)
 
-Definition sim_astep (s : sim_astate) (t : tick_script) : res (sim_aobs * sim_astate) :=
+(* nw = number of write hooks (atomic regions feeding the state); the remaining hooks of the
+   tick are the read paths (slices taking an atomic snapshot) *)
+Definition sim_astep (nw : nat) (s : sim_astate) (t : tick_script) : res (sim_aobs * sim_astate) :=
   bind (run_hooks (push_all (sa_hooks s) (fst t)) (snd t)) (fun '(hs', outs, _) =>
-    match outs with
-    | [(wout, _); (rout, _)] =>
-        let applied' := sa_applied s ++ wout in
-        Ok ((wout, map (fun r => (r, applied')) rout), mkSA hs' applied')
-    | _ => Panic 0
-    end).
+    let wout := concat (map fst (firstn nw outs)) in
+    let rout := concat (map fst (skipn nw outs)) in
+    let applied' := sa_applied s ++ wout in
+    Ok ((wout, map (fun r => (r, applied')) rout), mkSA hs' applied')).
 
-Fixpoint run_sim_atomic (s : sim_astate) (sc : list tick_script) : res (list sim_aobs) :=
+Fixpoint run_sim_atomic (nw : nat) (s : sim_astate) (sc : list tick_script) : res (list sim_aobs) :=
   match sc with
   | [] => Ok []
   | t :: r =>
-      bind (sim_astep s t) (fun '(o, s') =>
-        bind (run_sim_atomic s' r) (fun os => Ok (o :: os)))
+      bind (sim_astep nw s t) (fun '(o, s') =>
+        bind (run_sim_atomic nw s' r) (fun os => Ok (o :: os)))
   end.
 
 (* ---------------------------------------------------------------- correspondence with the real
@@ -182,23 +182,21 @@ Definition c31_sim_verdict (rounds : list sround) (continuity : bool)
 
 (* C34: hooks [writes; reads]; responses are computed from the implementation's releases as the
    atomic snapshot does (state after this tick's writes); the predicate is read-after-write *)
-Fixpoint raw_sim_b (applied : list (N * N)) (rounds : list sround) : bool :=
+Fixpoint raw_sim_b (nw : nat) (applied : list (N * N)) (rounds : list sround) : bool :=
   match rounds with
   | [] => true
   | r :: rest =>
-      match sr_emitted r with
-      | [wout; rout] =>
-          let applied' := applied ++ wout in
-          (* every acknowledged write so far is in the snapshot the reads of this tick get *)
-          forallb (fun w => existsb (fun a => N.eqb (fst a) (fst w) && N.eqb (snd a) (snd w)) applied') applied'
-          && raw_sim_b applied' rest
-      | _ => false
-      end
+      let applied' := applied ++ concat (firstn nw (sr_emitted r)) in
+      (* every write acknowledged so far is in the snapshot this tick's reads are answered from *)
+      forallb (fun w => existsb (fun a => N.eqb (fst a) (fst w) && N.eqb (snd a) (snd w)) applied') applied'
+      && Nat.leb nw (length (sr_emitted r))
+      && raw_sim_b nw applied' rest
   end.
 
-(* wkind: 0 = unkeyed TotalOrder write hook (acks in arrival order), 1 = keyed write hook (a hash
-   map: no order between keys, multiset form) *)
-Definition c34_sim_verdict (rounds : list sround) (continuity : bool) (wkind : N)
-           (wcol : list (N * N) * list (list (N * N)) * list (N * N)) : N :=
+(* wcols: per write hook (kind code, pushed, emitted per round, finally queued); kind 0 = unkeyed
+   TotalOrder hook (acks in arrival order), 1 = NoOrder / keyed hook (multiset form) *)
+Definition c34_sim_verdict (rounds : list sround) (continuity : bool) (nw : nat)
+           (wcols : list (N * list (N * N) * list (list (N * N)) * list (N * N))) : N :=
   (if forallb round_agrees rounds && continuity then 0 else 1)
-  + (if hook_clause_b wkind (fst (fst wcol)) (snd (fst wcol)) (snd wcol) && raw_sim_b [] rounds then 0 else 2).
+  + (if forallb (fun c => hook_clause_b (fst (fst (fst c))) (snd (fst (fst c))) (snd (fst c)) (snd c)) wcols
+        && raw_sim_b nw [] rounds then 0 else 2).
